@@ -102,10 +102,10 @@ func (p *verifProvider) GetRawQuote(rd [64]byte) ([]uint8, error) {
 
 // scenario state for the cut sources
 var (
-	verifEvLog       *eventlog.CryptoAgileLog
-	verifEvLogFails  bool
-	verifQuotes    map[byte]*tpmpb.Attestation // keyed by first byte of the quote bytes
-	verifQuoteErrs map[byte]bool
+	verifEvLog      *eventlog.CryptoAgileLog
+	verifEvLogFails bool
+	verifQuotes     map[byte]*tpmpb.Attestation // keyed by first byte of the quote bytes
+	verifQuoteErrs  map[byte]bool
 )
 
 func verifElFromFile(path string) (*eventlog.CryptoAgileLog, error) {
@@ -151,9 +151,9 @@ func verifMkAttestation(kind int, meas, blob []byte) *tpmpb.Attestation {
 func verifC16Extract(logKind int) {
 	force := verifNondetBool("force_fetch")
 	meas := verifNondetBytes("measurement", 48)
-	blobQ := []byte{0xB1, 0x0B}    // endorsement carried by the supplied quote
-	blobP := []byte{0xB2, 0x0B}    // endorsement carried by the provider's quote
-	blobL := []byte{0xB3, 0x0B}    // endorsement in the event log (raw locator / UEFI variable)
+	blobQ := []byte{0xB1, 0x0B} // endorsement carried by the supplied quote
+	blobP := []byte{0xB2, 0x0B} // endorsement carried by the provider's quote
+	blobL := []byte{0xB3, 0x0B} // endorsement in the event log (raw locator / UEFI variable)
 	getter := &verifGetter{blob: []byte{0xB4}, fail: verifNondetBool("get_fails")}
 	reader := &verifVarReader{blob: blobL, fail: verifNondetBool("variable_fails")}
 	prov := &verifProvider{quote: []byte{2}, fail: verifNondetBool("provider_fails")}
@@ -166,7 +166,7 @@ func verifC16Extract(logKind int) {
 	}
 	// event log
 	verifEvLog, verifEvLogFails = nil, false
-	locatorKinds := []uint32{eventlog.RIMLocationRaw, eventlog.RIMLocationVariable, eventlog.RIMLocationURI}
+	locatorKinds := []uint32{eventlog.RIMLocationRaw, eventlog.RIMLocationVariable, eventlog.RIMLocationURI, eventlog.RIMLocationVariable}
 	if logKind >= 0 {
 		opts.EventLogLocation = "/log"
 		verifEvLogFails = verifNondetBool("log_unreadable")
@@ -174,12 +174,19 @@ func verifC16Extract(logKind int) {
 		switch logKind {
 		case 0:
 			evt.RIMLocator = eventlog.Uint32SizedArray{Data: blobL}
-		case 1:
+		case 1, 3:
 			evt.RIMLocator = eventlog.Uint32SizedArray{Data: append(make([]byte, 16), 'F', 0, 'R', 0, 0, 0)}
 		default:
 			evt.RIMLocator = eventlog.Uint32SizedArray{Data: []byte(verify.GCETcbURL(extractsev.GCETcbObjectName(sev.GCEUefiFamilyID, meas)))}
 		}
 		verifEvLog = &eventlog.CryptoAgileLog{Events: []*eventlog.TCGPCREvent2{{EventType: eventlog.EvNoAction, EventData: eventlog.TCGEventData{Event: evt}}}}
+		if logKind == 3 {
+			// the signer's own pair: a UEFI-variable locator and a URI locator (whose URL is derived from
+			// the firmware digest, not from a launch measurement), the variable first
+			uri := &eventlog.SP800155Event3{FirmwareManufacturerStr: eventlog.ByteSizedCStr{Data: GCEFirmwareManufacturer}, RIMLocatorType: eventlog.RIMLocationURI,
+				RIMLocator: eventlog.Uint32SizedArray{Data: []byte("https://storage.googleapis.com/gce_tcb_integrity/ovmf_x64_csm/digest.fd.signed")}}
+			verifEvLog.Events = append(verifEvLog.Events, &eventlog.TCGPCREvent2{EventType: eventlog.EvNoAction, EventData: eventlog.TCGEventData{Event: uri}})
+		}
 	}
 	// supplied quote and provider quote
 	qk := verifConcretize(int(verifNondetU8("quote_kind")%7), 0, 6)
@@ -207,7 +214,7 @@ func verifC16Extract(logKind int) {
 		verifAssert(u == sevName || u == tdxName, "a network fetch is only issued for a URL derived from a full-length measurement")
 	}
 	if !force {
-		logHit := logKind >= 0 && !verifEvLogFails && (logKind == 0 || (logKind == 1 && !reader.fail) || (logKind == 2 && opts.Getter != nil && !getter.fail))
+		logHit := logKind >= 0 && !verifEvLogFails && (logKind == 0 || ((logKind == 1 || logKind == 3) && !reader.fail) || (logKind == 2 && opts.Getter != nil && !getter.fail))
 		if logHit && logKind != 2 {
 			verifReach("from-log")
 			verifAssert(err == nil && verifEqBytes(out, blobL) && len(getter.urls) == 0, "local event-log evidence is returned byte for byte without network access")
@@ -225,7 +232,8 @@ func verifC16Extract(logKind int) {
 	verifReach("end")
 }
 
-func VerifC16ExtractNoLog() { verifC16Extract(-1) }
-func VerifC16ExtractRaw()   { verifC16Extract(0) }
-func VerifC16ExtractVar()   { verifC16Extract(1) }
-func VerifC16ExtractURI()   { verifC16Extract(2) }
+func VerifC16ExtractNoLog()  { verifC16Extract(-1) }
+func VerifC16ExtractRaw()    { verifC16Extract(0) }
+func VerifC16ExtractVar()    { verifC16Extract(1) }
+func VerifC16ExtractURI()    { verifC16Extract(2) }
+func VerifC16ExtractVarURI() { verifC16Extract(3) }
